@@ -592,6 +592,10 @@ pub fn gen_facts(rng: &mut Rng, cfg: &GenCfg) -> FactSet {
                         f.terms[i].replaced_by = Some(ids[r]);
                     }
                 }
+                // a connected term whose replacement is not a term of this ontology
+                if cfg.dangling_replacement && rng.chance(1, 25) {
+                    f.terms[i].replaced_by = Some(*rng.pick(&[9_999_991u32, 654_321, u32::MAX - 1, 10_000_001]));
+                }
             }
         }
         if let Some(cap) = cfg.max_paths {
